@@ -77,7 +77,7 @@ def maker(cfg):
                                     features=cfg["ifeat"][i], path=(f"i{i}",)) for i in range(cfg["N"])]
         for it in intrs:
             arb.add(it)
-        return Harness(arb, flat_ports(arb, *intrs), arb=arb, intrs=intrs)
+        return Harness(arb, flat_ports(arb) + flat_ports(*intrs, env="out"), arb=arb, intrs=intrs)
     return make
 
 
